@@ -474,7 +474,38 @@ func snapshot(e *c11Env) *c11Snap {
 
 // ---------------------------------------------------------------- row mapping
 
-var c11ColNames = map[int]string{1: "a", 2: "b", 3: "c", 4: "x"}
+// c11ColNames renders a name of spec/RowMap.tla, the pair <<column id, case style>>: the four
+// spellings of one column differ from each other and are equal once their letter case is folded
+// (checked by c11CheckNames); column 4 is the extra column that no destination names.
+var c11ColNames = map[int]map[string]string{
+	1: {"lower": "userid", "camel": "userId", "cap": "Userid", "upper": "USERID"},
+	2: {"lower": "nickname", "camel": "nickName", "cap": "Nickname", "upper": "NICKNAME"},
+	3: {"lower": "agemax", "camel": "ageMax", "cap": "Agemax", "upper": "AGEMAX"},
+	4: {"lower": "xtracol", "camel": "xtraCol", "cap": "Xtracol", "upper": "XTRACOL"},
+}
+
+// c11CheckNames verifies what the specification assumes about the rendering of names.
+func c11CheckNames() error {
+	seen := map[string]bool{}
+	for id, sp := range c11ColNames {
+		if len(sp) != 4 {
+			return fmt.Errorf("column %d has %d spellings", id, len(sp))
+		}
+		for style, name := range sp {
+			if seen[name] {
+				return fmt.Errorf("spelling %q is used twice", name)
+			}
+			seen[name] = true
+			if strings.ToLower(name) != sp["lower"] || strings.ContainsAny(name, ",\"` ") {
+				return fmt.Errorf("spelling %q (%s) of column %d is not a case variant of %q", name, style, id, sp["lower"])
+			}
+		}
+	}
+	return nil
+}
+
+// c11Name is the text of column id in a case style ("" when the specification names something unknown).
+func c11Name(id int, style string) string { return c11ColNames[id][style] }
 
 // field Go types used for the cells (all cells are small positive integers)
 var c11Scalars = []reflect.Type{
@@ -492,6 +523,7 @@ type c11Shape struct {
 	tagged bool
 	tagsp  string   // the specification's name of the tag spelling ("plain", "opts", "comma", "mixed")
 	tags   []string // text of the db tag of leaf field i (index i-1), rendered from the specification's tokens
+	tcase  string   // letter case of the names in the tags ("lower", "camel", "cap", "upper")
 	emb    string
 	embn   int // leaf fields inside the embedded struct (the last embn of nf)
 	ptrs   map[int]bool
@@ -531,16 +563,18 @@ func buildShape(st kit.M) (sh *c11Shape, err error) {
 	}
 	if sh.tagged {
 		sh.tagsp = kit.Str(st["tagsp"])
+		sh.tcase = kit.Str(st["tcase"])
 		for _, tg := range kit.List(st["tags"]) {
 			var parts []string
 			for k, tok := range kit.List(tg) {
 				id := kit.Num(tok)
-				name, isCol := c11ColNames[id]
+				name := c11Name(id, sh.tcase)
+				isCol := name != ""
 				if opt, isOpt := c11TagTokens[id]; isOpt && k > 0 {
 					name, isCol = opt, true
 				}
 				if !isCol {
-					return nil, fmt.Errorf("unknown tag token %d in %s", id, kit.Canon(tg))
+					return nil, fmt.Errorf("unknown tag token %d in %s (case style %q)", id, kit.Canon(tg), sh.tcase)
 				}
 				parts = append(parts, name)
 			}
@@ -821,9 +855,15 @@ func runRowMapCase(c kit.Case, rep *kit.Reporter) (v kit.Verdict) {
 	if err != nil {
 		return infra(c, err.Error())
 	}
+	// the result set spells its columns in one case style (the tags' style or another one)
+	ccase := kit.Str(st["ccase"])
 	var cols []string
 	for _, id := range kit.List(st["cols"]) {
-		cols = append(cols, c11ColNames[kit.Num(id)])
+		name := c11Name(kit.Num(id), ccase)
+		if name == "" {
+			return infra(c, fmt.Sprintf("unknown column %d in case style %q", kit.Num(id), ccase))
+		}
+		cols = append(cols, name)
 	}
 	strict := kit.Bool(st["strict"])
 	single := sh.dest == "one"
@@ -834,7 +874,12 @@ func runRowMapCase(c kit.Case, rep *kit.Reporter) (v kit.Verdict) {
 		rep.Count("rowmap.strict-fewer-than-leaf-fields", 1)
 	}
 	if sh.tagged {
-		rep.Count("rowmap.tags-"+sh.tagsp, 1) // vacuity guard of checks/c11.py
+		rep.Count("rowmap.tags-"+sh.tagsp, 1) // vacuity guards of checks/c11.py
+		if ccase == sh.tcase {
+			rep.Count("rowmap.names-"+sh.tcase, 1)
+		} else {
+			rep.Count("rowmap.columns-spelled-differently", 1)
+		}
 	}
 	vias := []string{"conn", "tx", "stmt"}
 	if strict {
@@ -983,6 +1028,11 @@ func runRowMapCase(c kit.Case, rep *kit.Reporter) (v kit.Verdict) {
 			if sh.tagged && sh.tagsp != "plain" {
 				v.Key += ":tag-options"
 			}
+			if sh.tagged && ccase != sh.tcase {
+				v.Key += ":columns-spelled-differently"
+			} else if sh.tagged && sh.tcase != "lower" {
+				v.Key += ":names-with-upper-case"
+			}
 			v.Msg = fmt.Sprintf("%s via %s into %s of %s (ptr fields %v, %d elements already there), columns %v, data %s: got %s, specification allows %s",
 				api, via, sh.dest, c11TypeText(sh.elem), kit.Canon(st["ptrs"]), pre, cols, kit.Canon(st["data"]), o, allowedText(allow))
 			return v
@@ -996,6 +1046,9 @@ func runRowMapCase(c kit.Case, rep *kit.Reporter) (v kit.Verdict) {
 func TestVerifC11(t *testing.T) {
 	logx.Disable()
 	sqlx.DisableLog()
+	if err := c11CheckNames(); err != nil {
+		t.Fatal(err)
+	}
 	cases, err := kit.LoadCases(kit.Env("VERIF_CASES", ""))
 	if err != nil {
 		t.Fatal(err)
